@@ -53,6 +53,19 @@ var internalPartial = map[string]partialInfo{
 	"github.com/dapr/kit/crypto.expectedKeySize": {0, "panics (slice bounds) if len(alg) < 4: alg[1:4]"},
 }
 
+// nilableResults: library functions whose pointer result is nil on ordinary input; a variable assigned
+// from one is "nil-able" and every field access through it is a `nilderef` site that needs a fresh
+// nil check of THAT variable (`x == nil` / `x != nil` evaluated after the assignment that reaches the use).
+var nilableResults = map[string]int{
+	"encoding/pem.Decode": 0, // result index
+}
+
+// boundedCalls: calls whose running time is not bounded by the size of their argument; the argument must
+// be the very expression a dominating guard was evaluated on (no re-derivation such as TrimSpace in between).
+var boundedCalls = map[string]string{
+	"k8s.io/apimachinery/pkg/api/resource.ParseQuantity": "computes 10^|exponent| exactly: unbounded time and memory for a large decimal exponent",
+}
+
 // panicContracts: callee (types.Func.FullName) -> the contract that makes the call a panic site.
 var panicContracts = map[string]string{
 	"crypto/cipher.NewCBCDecrypter":         "panics if len(iv) != block size",
@@ -168,6 +181,8 @@ type walker struct {
 	typed bool
 	// package-level slice variables initialised by a composite literal and never assigned: var -> number of elements
 	pkgLits map[*types.Var]int
+	body    ast.Node // the function body being walked (for the freshness of guards)
+	nilable map[*types.Var]bool
 }
 
 func (w *walker) text(n ast.Node) string {
@@ -200,9 +215,146 @@ func contains(outer, inner ast.Node) bool {
 }
 
 // guards computes the conditions syntactically dominating node n, outermost first.
+// assignedBetween: is one of the variables read by `cond` assigned (or incremented, redeclared, or
+// has its address taken) after the condition was evaluated and before the site — i.e. textually
+// between them, or anywhere inside a loop that starts after the condition and contains the site?
+func (w *walker) assignedBetween(cond ast.Node, site ast.Node) bool {
+	if w.body == nil || cond == nil {
+		return false
+	}
+	vars := map[types.Object]bool{}
+	ast.Inspect(cond, func(n ast.Node) bool {
+		if id, ok := n.(*ast.Ident); ok {
+			if o, ok := w.info.Uses[id].(*types.Var); ok && !o.IsField() {
+				vars[o] = true
+			}
+		}
+		return true
+	})
+	if len(vars) == 0 {
+		return false
+	}
+	// regions: (cond.End, site.Pos) and the bodies of loops that begin after cond and contain the site
+	type region struct{ lo, hi token.Pos }
+	regions := []region{{cond.End(), site.Pos()}}
+	for _, p := range w.stack {
+		switch l := p.(type) {
+		case *ast.ForStmt:
+			if l.Pos() >= cond.End() && contains(l, site) {
+				regions = append(regions, region{l.Pos(), l.End()})
+			}
+		case *ast.RangeStmt:
+			if l.Pos() >= cond.End() && contains(l, site) {
+				regions = append(regions, region{l.Pos(), l.End()})
+			}
+		}
+	}
+	in := func(p token.Pos) bool {
+		for _, r := range regions {
+			if r.lo <= p && p < r.hi {
+				return true
+			}
+		}
+		return false
+	}
+	// an assignment in another branch of an if/switch that contains the site is not on a path to it
+	otherBranch := func(a ast.Node) bool {
+		for _, p := range w.stack {
+			switch st := p.(type) {
+			case *ast.IfStmt:
+				if contains(st.Body, a) && !contains(st.Body, site) {
+					return true
+				}
+				if st.Else != nil && contains(st.Else, a) && !contains(st.Else, site) {
+					return true
+				}
+			case *ast.SwitchStmt:
+				for _, c := range st.Body.List {
+					if contains(c, a) && !contains(c, site) {
+						return true
+					}
+				}
+			case *ast.TypeSwitchStmt:
+				for _, c := range st.Body.List {
+					if contains(c, a) && !contains(c, site) {
+						return true
+					}
+				}
+			}
+		}
+		return false
+	}
+	hit := false
+	touches := func(e ast.Expr) {
+		for {
+			switch x := e.(type) {
+			case *ast.ParenExpr:
+				e = x.X
+				continue
+			case *ast.StarExpr:
+				e = x.X
+				continue
+			case *ast.Ident:
+				if o := w.info.Uses[x]; o != nil && vars[o] {
+					hit = true
+				}
+				if o := w.info.Defs[x]; o != nil {
+					// a redeclaration shadows: the guard was about another variable of the same name only if
+					// the names coincide; be conservative
+					for v := range vars {
+						if v.Name() == x.Name {
+							hit = true
+						}
+					}
+				}
+			}
+			return
+		}
+	}
+	ast.Inspect(w.body, func(n ast.Node) bool {
+		if n == nil || hit {
+			return false
+		}
+		switch x := n.(type) {
+		case *ast.AssignStmt:
+			if in(x.Pos()) && !contains(x, site) && !otherBranch(x) {
+				for _, l := range x.Lhs {
+					touches(l)
+				}
+			}
+		case *ast.IncDecStmt:
+			if in(x.Pos()) && !otherBranch(x) {
+				touches(x.X)
+			}
+		case *ast.UnaryExpr:
+			if x.Op == token.AND && in(x.Pos()) && !otherBranch(x) {
+				touches(x.X)
+			}
+		case *ast.RangeStmt:
+			if in(x.Pos()) && !contains(x.Body, site) {
+				if x.Key != nil {
+					touches(x.Key)
+				}
+				if x.Value != nil {
+					touches(x.Value)
+				}
+			}
+		}
+		return true
+	})
+	return hit
+}
+
 func (w *walker) guards(n ast.Node) []string {
 	out := []string{}
+	var condNode ast.Node
 	add := func(s string) {
+		// a guard is kept only if none of its variables is assigned between the guard and the site
+		if condNode != nil && w.assignedBetween(condNode, n) {
+			condNode = nil
+			return
+		}
+		condNode = nil
 		for _, x := range out {
 			if x == s {
 				return
@@ -218,8 +370,10 @@ func (w *walker) guards(n ast.Node) []string {
 		switch s := p.(type) {
 		case *ast.IfStmt:
 			if contains(s.Body, child) {
+				condNode = s.Cond
 				add(w.text(s.Cond))
 			} else if s.Else != nil && contains(s.Else, child) {
+				condNode = s.Cond
 				add("!(" + w.text(s.Cond) + ")")
 			}
 		case *ast.ForStmt:
@@ -271,6 +425,7 @@ func (w *walker) guards(n ast.Node) []string {
 						break
 					}
 					if ifs, ok := st.(*ast.IfStmt); ok && ifs.Else == nil && terminates(ifs.Body) {
+						condNode = ifs.Cond
 						add("!(" + w.text(ifs.Cond) + ")")
 					}
 				}
@@ -281,6 +436,7 @@ func (w *walker) guards(n ast.Node) []string {
 					break
 				}
 				if ifs, ok := st.(*ast.IfStmt); ok && ifs.Else == nil && terminates(ifs.Body) {
+					condNode = ifs.Cond
 					add("!(" + w.text(ifs.Cond) + ")")
 				}
 			}
@@ -501,6 +657,20 @@ func (w *walker) Visit(n ast.Node) ast.Visitor {
 		default:
 			fail("index of unexpected type %s (%s) in %s", t, w.text(e), w.fn)
 		}
+	case *ast.SelectorExpr:
+		if id, ok := e.X.(*ast.Ident); ok {
+			if v, ok := w.info.Uses[id].(*types.Var); ok && w.nilable[v] {
+				if _, isPtr := v.Type().Underlying().(*types.Pointer); isPtr {
+					w.emit("nilderef", e, "the variable holds the result of a library function that returns nil on ordinary input")
+				}
+			}
+		}
+	case *ast.StarExpr:
+		if id, ok := e.X.(*ast.Ident); ok {
+			if v, ok := w.info.Uses[id].(*types.Var); ok && w.nilable[v] {
+				w.emit("nilderef", e, "the variable holds the result of a library function that returns nil on ordinary input")
+			}
+		}
 	case *ast.SliceExpr:
 		if e.Low != nil || e.High != nil || e.Max != nil {
 			w.emit("slice", e, "")
@@ -562,6 +732,9 @@ func (w *walker) Visit(n ast.Node) ast.Visitor {
 				break
 			}
 			full := fn.FullName()
+			if c, bounded := boundedCalls[full]; bounded {
+				w.emit("call", e, full+": "+c)
+			}
 			if c, listed := panicContracts[full]; listed {
 				if c != "" {
 					w.emit("call", e, full+": "+c)
@@ -807,6 +980,42 @@ func closePartial(files []*ast.File, info *types.Info) {
 	}
 }
 
+// nilableVars: the local variables that are somewhere assigned the nil-able result of a listed function.
+func nilableVars(body ast.Node, info *types.Info) map[*types.Var]bool {
+	out := map[*types.Var]bool{}
+	ast.Inspect(body, func(n ast.Node) bool {
+		as, ok := n.(*ast.AssignStmt)
+		if !ok || len(as.Rhs) != 1 {
+			return true
+		}
+		call, ok := as.Rhs[0].(*ast.CallExpr)
+		if !ok {
+			return true
+		}
+		sel, ok := call.Fun.(*ast.SelectorExpr)
+		if !ok {
+			return true
+		}
+		fn, ok := info.Uses[sel.Sel].(*types.Func)
+		if !ok {
+			return true
+		}
+		idx, listed := nilableResults[fn.FullName()]
+		if !listed || idx >= len(as.Lhs) {
+			return true
+		}
+		if id, ok := as.Lhs[idx].(*ast.Ident); ok {
+			if v, ok := info.Defs[id].(*types.Var); ok {
+				out[v] = true
+			} else if v, ok := info.Uses[id].(*types.Var); ok {
+				out[v] = true
+			}
+		}
+		return true
+	})
+	return out
+}
+
 func fail(format string, a ...any) {
 	fmt.Fprintf(os.Stderr, "factgen_c07: unknown shape: "+format+"\n", a...)
 	os.Exit(1)
@@ -1016,7 +1225,7 @@ func main() {
 					name = "var"
 					body = dd
 				}
-				w := &walker{fset: fset, info: info, fn: d + "." + name, sites: &sites, pkgLits: pkgLits}
+				w := &walker{fset: fset, info: info, fn: d + "." + name, sites: &sites, pkgLits: pkgLits, body: body, nilable: nilableVars(body, info)}
 				ast.Walk(w, body)
 			}
 		}
